@@ -3,6 +3,8 @@ package main
 import (
 	"embed"
 	"fmt"
+	"go/scanner"
+	"go/token"
 	"go/types"
 	"io"
 	"os"
@@ -56,8 +58,27 @@ func knownToRules(name string) bool {
 			if err != nil {
 				continue
 			}
-			for _, w := range re.FindAllString(string(b), -1) {
-				ruleWords[w] = true
+			// identifiers of the code, and the words of string literals that are names (no blank inside: callee names,
+			// field names, type names) — not the words of comments or of diagnostic messages
+			var sc scanner.Scanner
+			fset := token.NewFileSet()
+			sc.Init(fset.AddFile(e.Name(), fset.Base(), len(b)), b, nil, 0)
+			for {
+				_, tok, lit := sc.Scan()
+				if tok == token.EOF {
+					break
+				}
+				switch tok {
+				case token.IDENT:
+					ruleWords[lit] = true
+				case token.STRING:
+					if strings.ContainsAny(lit, " \t") {
+						continue
+					}
+					for _, w := range re.FindAllString(lit, -1) {
+						ruleWords[w] = true
+					}
+				}
 			}
 		}
 	})
